@@ -137,13 +137,14 @@ type blkDef struct {
 }
 
 type evDef struct {
-	raw  types.Evidence // as built (what a peer would encode); ev is the decoded object
-	id   string
-	ev   types.Evidence
-	kind string
-	hash string // 12 hex
-	sz   int
-	vb   bool
+	raw       types.Evidence // as built (what a peer would encode); ev is the decoded object
+	wireTotal int64          // forged conflicting_block.validator_set.total_voting_power on the wire (0 = honest)
+	id        string
+	ev        types.Evidence
+	kind      string
+	hash      string // 12 hex
+	sz        int
+	vb        bool
 	// line data kept for the oracle's reference verifier
 	m map[string]string
 }
@@ -166,6 +167,8 @@ type chain struct {
 	pool       *evidence.Pool
 	dead       bool
 	hook       *hooker
+	ab         bool // genuine chain driven by ApplyBlock (applyblock.go)
+	abn        *abNode
 	defs       map[string]*evDef
 	order      []string
 }
@@ -670,7 +673,7 @@ func (c *chain) buildLCA(m map[string]string) (*types.LightClientAttackEvidence,
 		}
 	}
 	for i, v := range cvals.Validators {
-		if mut == "fewsig" && i > 0 {
+		if (mut == "fewsig" || mut == "wiretotal") && i > 0 {
 			sigs[i] = types.NewCommitSigAbsent()
 			continue
 		}
@@ -747,7 +750,7 @@ func (c *chain) buildLCA(m map[string]string) (*types.LightClientAttackEvidence,
 		}
 	case "byzone": // exactly one entry (what a nil validator would be compared with)
 		ev.ByzantineValidators = []*types.Validator{types.NewValidator(privKey(901).PubKey(), 3)}
-	case "none", "badsig", "badsiglast", "fewsig", "flagabs", "flagnil", "sigaddr", "sigaddrnil", "sigaddr2", "cmheight",
+	case "none", "badsig", "badsiglast", "fewsig", "wiretotal", "flagabs", "flagnil", "sigaddr", "sigaddrnil", "sigaddr2", "cmheight",
 		"d0", "d1", "d2", "d3", "d4", "round", "cvpow":
 	default:
 		return nil, false
@@ -906,10 +909,13 @@ func (c *chain) define(m map[string]string) (*evDef, bool) {
 	d.hash = hash12(d.ev)
 	d.sz = protoSize(d.ev)
 	d.vb = d.ev.ValidateBasic() == nil
+	if kind == "lca" && strings.HasSuffix(m["tag"], ".wiretotal") {
+		d.wireTotal = 1 // the sender claims a total of 1: any single signer exceeds 2/3 of it
+	}
 	if d.vb {
 		// evidence reaches the pool decoded from protobuf (reactor message, block): hand the pool
 		// the decoded object
-		if pb, err := types.EvidenceToProto(d.ev); err == nil {
+		if pb, err := d.toWire(); err == nil {
 			if ev2, err := types.EvidenceFromProto(pb); err == nil {
 				d.ev = ev2
 			} else {
@@ -918,6 +924,20 @@ func (c *chain) define(m map[string]string) (*evDef, bool) {
 		}
 	}
 	return d, true
+}
+
+// toWire: the protobuf message a peer sends for this evidence
+func (d *evDef) toWire() (*tmproto.Evidence, error) {
+	pb, err := types.EvidenceToProto(d.raw)
+	if err != nil {
+		return nil, err
+	}
+	if d.wireTotal != 0 {
+		if l := pb.GetLightClientAttackEvidence(); l != nil && l.ConflictingBlock != nil && l.ConflictingBlock.ValidatorSet != nil {
+			l.ConflictingBlock.ValidatorSet.TotalVotingPower = d.wireTotal
+		}
+	}
+	return pb, nil
 }
 
 // derived tokens of a definition, as they must appear on the line
